@@ -8,6 +8,8 @@ def run(facts, tier):
         ("refresh discipline", H.union_refresh, 6, "no observer of derived HLL state (curMin, numAtCurMin, kxq) runs on the gadget before check_rebuild_kxq_cur_min()"),
         ("lg_k rule", H.union_lgk, 1, "the gadget is down-sampled to the source's lg_k before an HLL x HLL merge"),
         ("replace only if empty", H.union_replace, 3, "the gadget is replaced by the input only when empty (or the old content is merged); rvalue take-over fully guarded"),
+        ("own-size masks", H.own_size_masks, 6, "register masks derive from this array's own lg_k"),
+        ("gadget type", H.union_gadget_type, 3, "every object that becomes the gadget is HLL_8 by construction"),
         ("reset agreement", H.union_reset, 1, "reset() rebuilds the gadget with the constructor's parameters"),
         ("merge loops", H.merge_loops, 6, "every merge loop folds every source slot with max, no conditional skip"),
         ("register stores", H.register_stores, 10, "every register store is a max"),
